@@ -396,7 +396,12 @@ class Gen:
                     self.bump('empty_str')
                 if k >= 18:
                     self.bump('long_str')      # a long chain of single-predecessor (inlined) states
-                return ('str', [self.char() for _ in range(k)])
+                chars = [self.char() for _ in range(k)]
+                if chars and r.random() < 0.12:
+                    # a multi-byte character inside the literal, preferably at its end
+                    chars[-1 if r.random() < 0.7 else r.randrange(len(chars))] = r.choice([0xe9, 0x3b1, 0x2192, 0x4e2d, 0x1f600])
+                    self.bump('non_ascii_str')
+                return ('str', chars)
             return self.cls(1) if r.random() < 0.3 else ('set', self.cls(2)[1]) if False else self.set_()
         x = r.random()
         if x < 0.38:
@@ -420,6 +425,11 @@ class Gen:
             else:
                 a = self.char()
                 items.append((a, a + r.choice([0, 1, 2, 4])))
+        if r.random() < self.o.get('p_alias', 0.08):
+            # characters that coincide in their low byte / low 16 bits (a truncating index or hash would merge them)
+            a = self.char()
+            items += [a, a + 0x100 * r.randint(1, 3), a + 0x10000]
+            self.bump('aliasing_set')
         return ('set', items)
 
     def new_fragments(self):
@@ -553,8 +563,45 @@ class Gen:
             d.append(('let', nm, re))
             env[nm] = re
             top_vars.append(nm)
+        big = r.random() < o.get('p_big', 0.08)
+        big_rules = []
+        if big:
+            # shapes a small random sample would never contain: many rules, a class of many ranges (more than
+            # MAX_GUARD_SIZE: a search table in the lexer's own arms), deep nesting, characters far from ASCII
+            kind_b = r.choice(['many_rules', 'many_ranges', 'deep', 'far_chars'])
+            self.bump('big_' + kind_b)
+            if kind_b == 'many_rules':
+                for i in range(r.randint(10, 16)):
+                    c = 0x61 + i
+                    re = r.choice([('cat', ('char', c), ('char', 0x61 + (i * 7) % 5)), ('plus', ('char', c)),
+                                   ('cat', ('char', c), ('opt', ('set', [(0x30, 0x39)])))])
+                    big_rules.append({'re': re, 'ctx': None, 'kind': self.kind(named, 0, fallible) if not named else 'simple:%d' % i})
+            elif kind_b == 'many_ranges':
+                lo = r.choice([0x41, 0x100, 0x4e00])
+                rngs = [(lo + 4 * i, lo + 4 * i + r.randint(0, 2)) for i in range(r.randint(10, 14))]
+                cls = ('set', rngs)
+                big_rules.append({'re': ('plus', cls), 'ctx': None, 'kind': 'simple:90'})
+                big_rules.append({'re': ('cat', ('char', 0x61), ('diff', ('any',), cls)), 'ctx': None, 'kind': 'simple:91'})
+            elif kind_b == 'deep':
+                re = ('char', self.char())
+                for i in range(r.randint(5, 7)):
+                    re = r.choice([('cat', ('opt', re), ('char', self.char())), ('or', ('cat', re, ('char', self.char())), ('char', self.char())),
+                                   ('plus', ('cat', re, ('char', self.char())))])
+                big_rules.append({'re': re, 'ctx': None, 'kind': 'simple:92'})
+            else:
+                far = r.choice([[0x10FFFF, 0x10FFFE], [0xD7FF, 0xE000], [0x1F600, 0x1F64F], [0xFFFF, 0x10000]])
+                big_rules.append({'re': ('plus', ('set', [(far[0] - 2, far[0]) if far[0] - 2 > 0xE000 or far[0] < 0xD800 else far[0], far[1]])),
+                                  'ctx': None, 'kind': 'simple:93'})
+                big_rules.append({'re': ('cat', ('char', far[1]), ('char', 0x61)), 'ctx': None, 'kind': 'simple:94'})
+                # everything but a character / a block next to the surrogate gap or at the end of the code space:
+                # range pieces that start or end at a surrogate, or at char::MAX
+                hole = r.choice([('char', 0xE000), ('set', [(0xE000, 0xF8FF)]), ('char', 0xD7FF), ('char', 0x10FFFF),
+                                 ('set', [(0xD7F0, 0xD7FF), (0xE000, 0xE00F)])])
+                big_rules.append({'re': ('cat', ('char', 0x62), ('plus', ('diff', ('any',), hole))), 'ctx': None, 'kind': 'simple:95'})
         if not named:
             nrules = r.randint(1, o['max_rules'])
+            for br in big_rules:
+                d.append(('rule', br))
             for _ in range(nrules):
                 d.append(('rule', self.rule(top_vars, env, False, 0, fallible)))
             self.bump('unnamed')
@@ -564,7 +611,7 @@ class Gen:
             self.bump('rulesets_%d' % nrs)
             # the same local variable name bound differently in every rule set, and used in a right context (or in
             # the regex): bindings must be resolved in the scope of the rule, never cached by the text of the regex
-            shared = nrs >= 2 and r.random() < 0.25
+            shared = nrs >= 2 and r.random() < o.get('p_shared', 0.25)
             if shared:
                 self.bump('shared_local_name')
             for k_rs, nm in enumerate(names):
@@ -577,11 +624,20 @@ class Gen:
                     lenv['loc'] = body
                     local_vars.append('loc')
                     head = ('set', [(0x61, 0x65)])
+                    if k_rs % 3 != 2:
+                        # the variable as an operand of `#` (resolved by regex_to_range_map, another code path)
+                        items.append(('rule', {'re': ('cat', ('char', 0x23), ('plus', ('diff', ('set', [(0x61, 0x68)]), ('var', 'loc')))),
+                                               'ctx': None, 'kind': 'simple:%d' % (70 + k_rs)}))
+                    # a way into the next rule set, so that every binding of the name is exercised
+                    items.append(('rule', {'re': ('char', 0x3e), 'ctx': None, 'kind': 'inf:sw.%d' % ((k_rs + 1) % nrs)}))
                     if o['p_ctx'] > 0:
                         items.append(('rule', {'re': head, 'ctx': ('var', 'loc'), 'kind': self.kind(True, nrs, fallible)}))
                     else:
                         items.append(('rule', {'re': ('cat', head, ('var', 'loc')), 'ctx': None, 'kind': self.kind(True, nrs, fallible)}))
                 nrules = r.randint(0 if nm != 'Init' and r.random() < 0.1 else 1, o['max_rules'])
+                if nm == 'Init':
+                    for br in big_rules:
+                        items.append(('rule', br))
                 for j in range(nrules):
                     if r.random() < 0.12:
                         v = "w%s%d" % (nm.lower(), j)
@@ -593,6 +649,14 @@ class Gen:
                         local_vars.append(v)
                     items.append(('rule', self.rule(local_vars, lenv, True, nrs, fallible)))
                 d.append(('ruleset', nm, items))
+            if r.random() < o.get('p_empty_rs', 0.1):
+                # a rule set without rules, and a way into it: whatever follows must fail there, consume the offending
+                # character and resume in Init
+                for top in d:
+                    if top[0] == 'ruleset' and top[1] == 'Init':
+                        top[2].append(('rule', {'re': ('char', 0x21), 'ctx': None, 'kind': 'inf:sw.%d' % nrs}))
+                d.append(('ruleset', 'RE', []))
+                self.bump('empty_ruleset')
         return d
 
     def rule(self, vars_, env, named, nrs, fallible):
@@ -668,6 +732,28 @@ class Gen:
         return out
 
     # ---- inputs
+    def width_boundary_chars(self, k):
+        """characters whose display width is not 1, and their neighbours: first / last character of runs of the
+        unicode-width table (from the independent enumerator), e.g. U+00AD, combining marks, wide blocks"""
+        if not hasattr(self, "_wruns"):
+            import lexcheck
+            try:
+                self._wruns = [(a, b) for a, b, w in lexcheck.load_width_table()]
+            except OSError:
+                self._wruns = []
+        out = []
+        # the lowest runs always (a threshold "fast path" would get exactly these wrong), the rest at random
+        for a, b in self._wruns[:3]:
+            out += [c for c in (a, b) if c > 0x20]
+        for _ in range(k):
+            if not self._wruns:
+                break
+            a, b = self.rng.choice(self._wruns)
+            c = self.rng.choice([a, b, a - 1, b + 1])
+            if 0 < c <= 0x10FFFF and not (0xD800 <= c <= 0xDFFF) and c not in (0x0d,):
+                out.append(c)
+        return out
+
     def inputs(self, d, n, max_len=12, ctors=(0,)):
         r = self.rng
         env = {}
@@ -692,6 +778,7 @@ class Gen:
         others = [0x78, 0x20]
         if self.o['wide']:
             others += [0x0a, 0x09, 0xe9, 0x4e2d, 0x1f600, 0x301, 0x200b]
+            others += self.width_boundary_chars(8)
         out = [(ctors[0], [])]
         seen = {()}
         tries = 0
@@ -745,10 +832,20 @@ class Gen:
             else:
                 ln = r.randint(1, max_len)
                 s = [r.choice(alpha) if r.random() < 0.8 else r.choice(others) for _ in range(ln)]
-            s = [c for c in s if 0 <= c <= 0x10FFFF and not (0xD800 <= c <= 0xDFFF)][:max_len * 2]
+            long_one = rules and r.random() < 0.04
+            if long_one:
+                # a long input: many words of the rule languages in a row (with a few foreign characters)
+                s = []
+                while len(s) < 60:
+                    rule = r.choice(rules)
+                    s += [c for c in sample_word(rule['re'], r, env) if c is not None]
+                    if r.random() < 0.1:
+                        s.append(r.choice(others))
+                self.bump('long_input')
+            s = [c for c in s if 0 <= c <= 0x10FFFF and not (0xD800 <= c <= 0xDFFF)][:(120 if long_one else max_len * 2)]
             if self.o['wide'] and r.random() < 0.5 and s:
                 pos = r.randrange(len(s) + 1)
-                s = s[:pos] + [r.choice([0x0a, 0x09, 0xe9, 0x4e2d, 0x1f600, 0x301])] + s[pos:]
+                s = s[:pos] + [r.choice([0x0a, 0x09, 0xe9, 0x4e2d, 0x1f600, 0x301] + others[9:])] + s[pos:]
             key = tuple(s)
             if key in seen:
                 continue
